@@ -208,6 +208,7 @@ class Result:
         self.abort = None       # (op index, text)
         self.ops = 0
         self.poison_at = None
+        self.threw = 0
 
 
 def abort_kind(stderr):
@@ -229,6 +230,7 @@ def compare(cfg, binary, lines):
     gi = split_ops(out)
     gm = split_ops(mout)
     res.ops = len(gi)
+    res.threw = sum(1 for (_, obs) in gi for l in obs if l == "threw bad_alloc")
     for idx, (op, obs) in enumerate(gi):
         for l in obs:
             if l.startswith("!viol "):
@@ -267,7 +269,7 @@ def load_known():
 def match_known(known, prop, text, cfg, op):
     """a finding is identified by property + regex over the violation text + optional config predicate"""
     for k in known:
-        if k.get("status") != "known" or k["property"] != prop:
+        if k.get("status") != "known" or (k["property"] != prop and prop not in k.get("also", [])):
             continue
         sig = k["signature"]
         if not re.search(sig["violation"], text):
